@@ -260,21 +260,38 @@ func ruleInvokeSites(c *chk.Ctx, d *dispatchModel) {
 		var task ssa.Value
 		ok := true
 		want := []*types.Var{c.M.TCtx, c.M.TM, c.M.THreq}
-		if len(args) != 4 {
+		taskArg := invokeTaskArg(c, s)
+		switch {
+		case taskArg != nil:
+			// the task itself is handed over: inside the invoke function handler and request
+			// must be read from that very parameter
+			task = c.P.Canon(taskArg)
+			hc := d.handlerCall.Common()
+			t1, f1, ok1 := taskFieldLoad(c, hc.Value)
+			var t2 ssa.Value
+			var f2 *types.Var
+			ok2 := false
+			if len(hc.Args) >= 2 {
+				t2, f2, ok2 = taskFieldLoad(c, hc.Args[1])
+			}
+			_, isParam := t1.(*ssa.Parameter)
+			ok = ok1 && ok2 && f1 == c.M.TM && f2 == c.M.THreq && t1 == t2 && (t1 == task || (isParam && t1.Parent() == d.invoke))
+		case len(args) == 4:
+			for i, a := range args[1:] {
+				t, fv, isTask := taskFieldLoad(c, a)
+				if !isTask || fv != want[i] {
+					ok = false
+					break
+				}
+				if task == nil {
+					task = t
+				} else if t != task {
+					ok = false
+				}
+			}
+		default:
 			c.Undecided("PAIR.invoke", f, "invoke operands", s.Pos(), "unexpected invoke arity %d", len(args))
 			continue
-		}
-		for i, a := range args[1:] {
-			t, fv, isTask := taskFieldLoad(c, a)
-			if !isTask || fv != want[i] {
-				ok = false
-				break
-			}
-			if task == nil {
-				task = t
-			} else if t != task {
-				ok = false
-			}
 		}
 		// results stored into val/err of the same task
 		call, _ := s.(*ssa.Call)
@@ -1113,8 +1130,8 @@ func ruleBarrier(c *chk.Ctx, d *dispatchModel) {
 				continue
 			}
 			t, fv, ok := taskFieldLoad(c, call.Call.Args[0])
-			t0, _, _ := taskFieldLoad(c, s.Common().Args[3])
-			if ok && fv == c.M.THreq && t == t0 && ir.InstrDominates(s.(*ssa.Call), call) {
+			t0 := invokeSiteTask(c, s)
+			if ok && fv == c.M.THreq && t0 != nil && t == t0 && ir.InstrDominates(s.(*ssa.Call), call) {
 				okGov = true
 			}
 		}
@@ -1527,6 +1544,7 @@ func ruleBatchOrder(c *chk.Ctx) {
 		}
 	})
 	filters, okApp := 0, len(apps) >= 1
+	var filterBlock *ssa.BasicBlock
 	for _, ap := range apps {
 		if !ir.InCycle(ap.Block()) {
 			okApp = false
@@ -1544,6 +1562,11 @@ func ruleBatchOrder(c *chk.Ctx) {
 			if isLoopCond(cd) || isLenCond(cd) {
 				continue
 			}
+			// an error check passed on the way (Send succeeded, client still running) does not
+			// select among the requests
+			if x, _, ok := ir.NilCompare(cd.V); ok && (x.Type().String() == "error" || chk.LoadsField(x, c.M.CCh) || chk.LoadsField(x, c.M.CErr)) {
+				continue
+			}
 			if call, ok := cd.V.(*ssa.Call); ok && call.Common().Value != nil {
 				if _, isNext := call.Common().Value.(*ssa.Builtin); isNext {
 					continue
@@ -1552,7 +1575,11 @@ func ruleBatchOrder(c *chk.Ctx) {
 			other = true
 		}
 		if gov {
-			filters++
+			// several collections filled in lock step (same block) count as one filter
+			if filterBlock == nil || filterBlock != ap.Block() {
+				filters++
+			}
+			filterBlock = ap.Block()
 		} else if other {
 			okApp = false
 		}
@@ -1590,4 +1617,29 @@ func handlerValueOnlyFrom(c *chk.Ctx, h, fn *ssa.Function) bool {
 		})
 	}
 	return found && ok
+}
+
+
+// invokeTaskArg returns the argument of an invoke call site that is the task
+// itself (when the invoke function takes the task rather than its fields).
+func invokeTaskArg(c *chk.Ctx, s ssa.CallInstruction) ssa.Value {
+	for _, a := range s.Common().Args {
+		if pt, ok := a.Type().(*types.Pointer); ok && types.Unalias(pt.Elem()) == types.Type(c.M.Task) {
+			return a
+		}
+	}
+	return nil
+}
+
+// invokeSiteTask returns the (canonical) task whose handler an invoke call site runs.
+func invokeSiteTask(c *chk.Ctx, s ssa.CallInstruction) ssa.Value {
+	if a := invokeTaskArg(c, s); a != nil {
+		return c.P.Canon(a)
+	}
+	for _, a := range s.Common().Args {
+		if t, _, ok := taskFieldLoad(c, a); ok {
+			return t
+		}
+	}
+	return nil
 }
